@@ -1341,7 +1341,7 @@ class FrequencySpectrum(WaveSpectrum):
                 _dataset = _dataset.assign({_name: self.dataset[_name]})
 
         interpolated_data = interpolate_dataset_grid(
-            coordinates, _dataset, nearest_neighbour
+            coordinates, _dataset, nearest_neighbour=nearest_neighbour
         )
         for name in _moments:
             interpolated_data[name] = (
